@@ -135,6 +135,11 @@ async fn run_async(run: usize, steps: Vec<Value>, log: &mut Vec<Value>) {
                 node.apply_remote_deltas(vec![d]);
                 let _ = node.collect_pending_deltas().await;
             }
+            // FLUSHALL / FLUSHDB empty the keyspace; the node's clock and what it has seen are not client data
+            "flush" if up => {
+                let _ = node.execute(argv_cmd(&[if st.get("db").and_then(|d| d.as_bool()).unwrap_or(false) { "FLUSHDB" } else { "FLUSHALL" }])).await;
+                let _ = node.collect_pending_deltas().await;
+            }
             "checkpoint" if up => {
                 ckpt = Some(node.snapshot_state().await);
                 if st.get("trim").and_then(|d| d.as_bool()).unwrap_or(false) {
@@ -192,6 +197,7 @@ fn random_steps(rng: &mut impl Rng) -> Vec<Value> {
                 up = true;
                 json!({"a": "recover"})
             }
+            8 if up && rng.gen_range(0..3) == 0 => json!({"a": "flush", "db": rng.gen_bool(0.5)}),
             _ => json!({"a": "write", "k": k, "place": "wal"}),
         };
         steps.push(s);
